@@ -1,4 +1,173 @@
-import DDV.Gen.Lemmas.Tree
+/-
+  C07 — Generated enum conversions are total, invertible and never undefined.
+-/
+import DDV.Gen.EnumSem
+import DDV.Gen.Lemmas.Enum
+
 namespace DDV.Props.C07
-theorem placeholder : True := trivial
+open DDV.Gen
+set_option linter.unusedVariables false
+set_option linter.unusedSimpArgs false
+
+/-- **Precedence.** A raw number converts to the variant listed with that number; else to the
+    catch-all variant carrying the raw value; else to the default variant; else (only for enums
+    with neither) to the error carrying the raw value and the enum's name. -/
+theorem from_listed (e : LEnum) (raw : Int) (v : LVariant)
+    (h : e.numberArms.find? (fun x => x.number == raw) = some v) :
+    e.fromNum raw = .ok ⟨v.name, none⟩ := by
+  unfold LEnum.fromNum; rw [h]
+
+theorem from_catch_all (e : LEnum) (raw : Int) (c : LVariant)
+    (h : e.numberArms.find? (fun x => x.number == raw) = none)
+    (hc : e.variants.find? (·.catchAll) = some c) :
+    e.fromNum raw = .ok ⟨c.name, some raw⟩ := by
+  unfold LEnum.fromNum; rw [h, hc]
+
+theorem from_default (e : LEnum) (raw : Int) (d : LVariant)
+    (h : e.numberArms.find? (fun x => x.number == raw) = none)
+    (hc : e.variants.find? (·.catchAll) = none) (hd : e.variants.find? (·.default) = some d) :
+    e.fromNum raw = .ok ⟨d.name, none⟩ := by
+  unfold LEnum.fromNum; rw [h, hc, hd]
+
+theorem from_error (e : LEnum) (raw : Int)
+    (h : e.numberArms.find? (fun x => x.number == raw) = none)
+    (hc : e.variants.find? (·.catchAll) = none) (hd : e.variants.find? (·.default) = none) :
+    e.fromNum raw = .error ⟨raw, e.name⟩ := by
+  unfold LEnum.fromNum; rw [h, hc, hd]
+
+/-- What the analysis guarantees about an accepted enum (C15): distinct variant names and distinct
+    numbers among the variants that have a number arm. -/
+structure Canonical (e : LEnum) : Prop where
+  names : (e.variants.map (·.name)).Nodup
+  numbers : (e.numberArms.map (·.number)).Nodup
+
+theorem find_unique {α β : Type} [DecidableEq β] (key : α → β) :
+    ∀ (l : List α) (x : α), x ∈ l → (l.map key).Nodup → l.find? (fun y => key y == key x) = some x
+  | [], x, hx, _ => by cases hx
+  | y :: ys, x, hx, hnd => by
+    simp only [List.map_cons, List.nodup_cons] at hnd
+    unfold List.find?
+    by_cases hk : key y = key x
+    · simp only [hk, beq_self_eq_true]
+      cases hx with
+      | head => rfl
+      | tail _ hmem =>
+        exact absurd (List.mem_map.2 ⟨x, hmem, hk.symm⟩) hnd.1
+    · have : (key y == key x) = false := by simp [hk]
+      simp only [this]
+      cases hx with
+      | head => exact absurd rfl hk
+      | tail _ hmem => exact find_unique key ys x hmem hnd.2
+
+/-- **Round trip of unit variants.** Converting any non-catch-all variant to its number and back
+    yields the same variant. -/
+theorem roundtrip_unit (e : LEnum) (hc : Canonical e) (v : LVariant) (hv : v ∈ e.variants)
+    (hu : v.catchAll = false) :
+    e.toNum ⟨v.name, none⟩ = some v.number ∧ e.fromNum v.number = .ok ⟨v.name, none⟩ := by
+  constructor
+  · unfold LEnum.toNum
+    have := find_unique (fun x : LVariant => x.name) e.variants v hv hc.names
+    rw [this]; simp [hu]
+  · have hm : v ∈ e.numberArms := by
+      unfold LEnum.numberArms; exact List.mem_filter.2 ⟨hv, by simp [hu]⟩
+    have := find_unique (fun x : LVariant => x.number) e.numberArms v hm hc.numbers
+    exact from_listed e v.number v this
+
+/-- **Round trip of the catch-all variant**: a payload round-trips exactly when it is not a listed
+    number (a listed payload is not a canonical value: the precedence rule maps it to the listed
+    variant). -/
+theorem roundtrip_catch_all (e : LEnum) (hcan : Canonical e) (c : LVariant) (hv : c ∈ e.variants)
+    (hc : c.catchAll = true) (hfirst : e.variants.find? (·.catchAll) = some c) (n : Int) :
+    e.toNum ⟨c.name, some n⟩ = some n ∧
+    (e.fromNum n = .ok ⟨c.name, some n⟩ ↔ e.numberArms.find? (fun x => x.number == n) = none) := by
+  constructor
+  · unfold LEnum.toNum
+    have := find_unique (fun x : LVariant => x.name) e.variants c hv hcan.names
+    rw [this]; simp [hc]
+  · constructor
+    · intro h
+      cases hf : e.numberArms.find? (fun x => x.number == n) with
+      | none => rfl
+      | some v =>
+        rw [from_listed e n v hf] at h
+        simp at h
+    · intro h; exact from_catch_all e n c h hfirst
+
+/-- **Totality of the conversion an infallible getter relies on.** If the enum has a fallback
+    variant, or lists every number below `2^bitSize`, then no raw value of a field of `w ≤ bitSize`
+    bits converts to an error — so `unwrap_unchecked` in the generated getter is never reached with
+    `Err`, also when the enum is reused by name on a narrower field. -/
+theorem infallible_getter_total (e : LEnum) (bitSize w : Nat) (hw : w ≤ bitSize)
+    (htotal : (e.variants.any (fun v => v.catchAll || v.default)) = true ∨
+              ∀ v : Nat, (v : Int) ≤ 2 ^ bitSize - 1 → ∃ x ∈ e.numberArms, x.number = (v : Int))
+    (raw : Nat) (hraw : raw < 2 ^ w) :
+    ∃ x, e.fromNum (raw : Int) = .ok x := by
+  unfold LEnum.fromNum
+  cases hf : e.numberArms.find? (fun v => v.number == (raw : Int)) with
+  | some v => exact ⟨_, rfl⟩
+  | none =>
+    simp only
+    rcases htotal with hfb | hcov
+    · cases hc : e.variants.find? (·.catchAll) with
+      | some c => exact ⟨_, rfl⟩
+      | none =>
+        simp only
+        cases hd : e.variants.find? (·.default) with
+        | some d => exact ⟨_, rfl⟩
+        | none =>
+          exfalso
+          obtain ⟨v, hv, hp⟩ := List.any_eq_true.1 hfb
+          have h1 := List.find?_eq_none.1 hc v hv
+          have h2 := List.find?_eq_none.1 hd v hv
+          simp only [Bool.or_eq_true] at hp
+          rcases hp with hp | hp
+          · exact h1 hp
+          · exact h2 hp
+    · exfalso
+      have hle : (raw : Int) ≤ 2 ^ bitSize - 1 := by
+        have h1 : 2 ^ w ≤ 2 ^ bitSize := Nat.pow_le_pow_right (by omega) hw
+        have h2 : ((2 ^ bitSize : Nat) : Int) = (2 : Int) ^ bitSize := by simp
+        omega
+      obtain ⟨x, hx, hnum⟩ := hcov raw hle
+      have := List.find?_eq_none.1 hf x hx
+      simp [hnum] at this
+
+/-- The lowering uses the unchecked conversion only under exactly that side condition:
+    `transform_field` picks `UnsafeInto` only when an enum generated under that name was analysed
+    `Infallible { bit_size }` and the field is at most `bit_size` bits wide (and `try` was not
+    requested). -/
+theorem unsafe_into_only_when_analysed_total (enums : List Enum) (w : Nat) (fc : FieldConversion)
+    (ty : String) (h : selectConv enums w fc = .unsafeInto ty) :
+    fc.useTry = false ∧ ∃ e ∈ enums, e.name = fc.typeName ∧
+      ∃ bitSize, e.style = some (.infallible bitSize) ∧ w ≤ bitSize := by
+  unfold selectConv at h
+  cases ht : fc.useTry with
+  | true => simp [ht] at h
+  | false =>
+    simp only [ht, Bool.false_eq_true, if_false] at h
+    refine ⟨rfl, ?_⟩
+    cases hf : enums.find? (fun e => e.name == fc.typeName) with
+    | none => simp [hf] at h
+    | some e =>
+      simp only [hf] at h
+      have hmem := List.mem_of_find?_eq_some hf
+      have hname : e.name = fc.typeName := by
+        have := List.find?_some hf
+        simpa using this
+      cases hs : e.style with
+      | none => simp [hs] at h
+      | some st =>
+        cases st with
+        | fallible => simp [hs] at h
+        | infallible b =>
+          simp only [hs] at h
+          by_cases hwb : w ≤ b
+          · exact ⟨e, hmem, hname, b, hs, hwb⟩
+          · simp [hwb] at h
+
+/-- Non-vacuity: an enum `A = 0, B = 1` on one bit is canonical and total. -/
+example : ∃ x, (⟨none, "E", false, 8,
+    [⟨none, "A", 0, false, false⟩, ⟨none, "B", 1, false, false⟩]⟩ : LEnum).fromNum 1 = .ok x :=
+  ⟨_, rfl⟩
+
 end DDV.Props.C07
